@@ -154,6 +154,7 @@ class Module:
         s.globals = {}    # name -> dict(type, init(tokens), const, extern)
         s.funcs = {}      # name -> Func
         s.order = []
+        s.aliases = {}    # alias name -> aliasee name
 
 
 class Func:
@@ -227,6 +228,8 @@ def parse_global(m, s):
         if w == 'thread_local' and p.accept('('): p.next(); p.expect(')')
     k, v = p.next()
     if v == 'alias':
+        tgt = [t for t in toks if t[0] == 'gname']
+        m.aliases[name] = tgt[-1][1]
         return
     const = (v == 'constant')
     t = p.ptype()
@@ -349,6 +352,7 @@ class Emitter:
         return n
 
     def gname(s, name):
+        while name in s.m.aliases: name = s.m.aliases[name]
         n = s.cid(name)
         if name in s.m.funcs and re.match(r'llvm_', n): return n
         if n in ('main',): return n
@@ -517,6 +521,7 @@ class Emitter:
         raise NotImplementedError('cexpr %s %s' % (c.kind, c.val))
 
     def gref(s, name, t):
+        while name in s.m.aliases: name = s.m.aliases[name]
         n = s.gname(name)
         if name in s.m.funcs:
             return '((%s)&%s)' % (s.ctype(t), n)
@@ -1062,6 +1067,7 @@ class FuncTrans:
             pass
         else:
             if k == 'gname':
+                while callee in em.m.aliases: callee = em.m.aliases[callee]
                 fn = em.gname(callee)
                 f = em.m.funcs.get(callee)
                 if f is not None:
